@@ -35,6 +35,8 @@ type Engine struct {
 	// LoopShift: offset added to a loop counter that stands in for a contract loop variable not found by
 	// name (see loopVarValueT); set by VerifyWithRebinding only.
 	LoopShift int
+	// LeanQuant: do not restate slice-header invariants inside quantifier bodies
+	LeanQuant bool
 }
 
 // FnKey is the stable name of a function used to attach contracts.
